@@ -2102,7 +2102,8 @@ protected:    // interface for the derived class
         // the event is processable, let's try!
         static void do_process(Event const& evt,library_sm* self_,::boost::msm::back::HandledEnum& result, ::boost::mpl::true_)
         {
-            if (result != ::boost::msm::back::HANDLED_TRUE)
+            // only if no region consumed the event (result is a bit set)
+            if (!(result & (::boost::msm::back::HANDLED_TRUE | ::boost::msm::back::HANDLED_DEFERRED)))
             {
                 typedef dispatch_table<library_sm,complete_table,Event,CompilePolicy> table;
                 ::boost::msm::back::HandledEnum res_internal = table::instance().entries[0](*self_, 0, self_->m_states[0], evt);
